@@ -129,6 +129,9 @@ type World struct {
 	R     int // recovery blocks / parity volumes
 	G     int // goroutines
 	N     int // protected slices (PAR2)
+	// UseDefaults: pass zero option values so that Create uses its
+	// documented defaults (which S, R then hold).
+	UseDefaults bool
 	// Created holds every file the Create call wrote (path -> bytes).
 	Created map[string][]byte
 	// Bystanders are unrelated files beside the set.
@@ -199,7 +202,7 @@ type GenOpts struct {
 	MaxR       int
 }
 
-var nameStems = []string{"f%d.dat", "data%d.bin", "sub/f%d", "sub/deep/er/f%d.x", "with space %d.txt", "UPPER%d.DAT", "d%d/file", "a-%d_b.c.d", "v1..%d.dat", "rel..%d/data.bin", "wait...%d", "win\\f%d.dat", "a\\..\\b%d"}
+var nameStems = []string{"f%d.dat", "data%d.bin", "sub/f%d", "sub/deep/er/f%d.x", "with space %d.txt", "UPPER%d.DAT", "d%d/file", "a-%d_b.c.d", "v1..%d.dat", "rel..%d/data.bin", "wait...%d", "win\\f%d.dat", "a\\..\\b%d", "trail%d ", "dot%d.", "n%d", "abcdefg%d"}
 var par1Stems = []string{"f%d.dat", "data%d.bin", "with space %d.txt", "héllo%d.txt", "日本%d", "\U0001F600%d.bin", "UPPER%d.DAT", "clip%d-\U0001F600", "%d\U00010348\U0001F4BE", "x%dé"}
 var baseNames = []string{"set", "my set", "archive.v1", "x", "Set-2_b"}
 
@@ -321,6 +324,10 @@ func GenWorld(r *Run, o GenOpts) *World {
 		case 7:
 			size = 1 + t.Draw(2000, "size2000")
 		}
+		if !o.Par1 && w.S >= 16384 {
+			// with slices this large keep the files to a few slices
+			size = []int{w.S, w.S - 1, w.S + 1, 2 * w.S, 20000, w.S / 2, 2*w.S + 5}[t.Draw(7, "huge-slice-filesize")]
+		}
 		if o.Par1 && t.Bool(1, 8, "empty") {
 			size = 0
 		}
@@ -333,7 +340,7 @@ func GenWorld(r *Run, o GenOpts) *World {
 		if o.SmallOnly && size > 8*S+1 && size > 300 {
 			size = 1 + size%(8*S)
 		}
-		if total+size > maxTotal && size > 64 {
+		if total+size > maxTotal && size > 64 && (o.Par1 || w.S < 16384 || total > 200000) {
 			size = 1 + size%64
 		}
 		// bound the slice count for tiny slice sizes
